@@ -110,7 +110,7 @@ var layoutQueries = []string{
 	`* | where code>300 | stats count by level`,
 	`* | eval big=if(lat>500, "y", "n") | stats count by big`,
 	`* | dedup level, code | stats count`,
-	`* | fields level, code | head 1000 | stats count by code`,
+	`* | fields level, code | head 100000 | stats count by code`,
 }
 
 // genWorldSet: one dataset, one query pool, K worlds.
